@@ -63,7 +63,7 @@ def render(seq, k, asm=None, asm_at=0, use=True):
         else:
             if init:
                 # every other body names its function (the object behind __func__ belongs to the definition that is finally emitted, if any)
-                fn = 'vf_sink = (void *)__func__; ' if (k + j) % 2 == 0 else ''
+                fn = ('vf_sink = (void *)__func__; ' if (k + j) % 2 == 0 else '') + ('vf_sink = (void *)(__func__ + 1); ' if (k + j) % 4 == 0 else '')
                 d = '%sint %s(void)%s { %s%s }' % (sp, x, lab, fn, 'for (;;) ;' if 'Noreturn' in spec else 'return %d;' % (j + 1))
             else:
                 d = '%sint %s(void)%s;' % (sp, x, lab)
@@ -274,6 +274,7 @@ FIXED_UNITS = [
     ('int static sa1 = 1; int extern sa2; const static int sa3 = 3; volatile int extern sa4; long static unsigned sa5 = 5; int sget(void) { return sa1 + sa2 + sa3 + sa4 + (int)sa5; }', ['sa1', 'sa2', 'sa3', 'sa4', 'sa5']),
     ('inline static int if1(void) { return 1; } int inline extern if2(void) { return 2; } void _Noreturn static if3(void) { for (;;) ; } inline int if4(void) { return 4; } int iget(void) { if (if1() == 9) if3(); return if2() + if4(); }', ['if1', 'if2', 'if3', 'if4']),
     # __func__ of consecutive functions, the first of which is an inline definition that is not emitted
+    ('void rep(const char *); int twice(void) { rep(__func__); rep(__func__); return sizeof __func__; } static int twice2(void) { rep(__func__ + 1); return __func__[0]; } int (*ptw)(void) = twice2;', ['twice', 'twice2', 'ptw']),
     ('void rep(const char *); inline int chk1(int x) { rep(__func__); return x; } int first(void) { rep(__func__); return 1; } int second(void) { rep(__func__); return 2; } extern int chk1(int);', ['chk1', 'first', 'second']),
 ]
 
